@@ -8,8 +8,7 @@ SCOPE = [("arith", 40, 60), ("manager.ha", 400, 50), ("hexital.ha", 100, 40)]
 ORACLE_RULE = ("C11: random stream x optional timeframe/fill x append schedule (many starting from 0 or 1 candles) with the Heikin-Ashi type on the "
                "real CandleManager vs an independent left fold of the four formulas over the independently resampled raw stream; tag and clean_values checked")
 ASSUMPTIONS = ["TZ=UTC for this check", "HA values compared with relative tolerance 1e-9 in the oracle (bit-exact in the correspondence)"]
-PARTIAL = ("no-timeframe case proved at full strength for every schedule (HexProps.C11.schedule); the combination with a collapsing "
-           "timeframe (with_timeframe_FULL) and Hexital member managers are covered by correspondence + search only")
+PARTIAL = 'no-timeframe case proved for every schedule; with a collapsing timeframe / inside a Hexital: correspondence + search (with_timeframe_FULL)'
 _case = om.make_case(ID, tf="maybe", ha=True)
 _case_fill = om.make_case(ID, tf=True, fill=True, ha=True)
 
